@@ -7,6 +7,7 @@ import DaskModel.Model.TreeReduce
 import DaskModel.Model.RelExpr
 import DaskModel.Model.OrRewrite
 import DaskModel.Model.DTypes
+import DaskModel.Model.CoMomentIO
 import DaskModel.Model.RelExpr2IO
 open Dask
 
@@ -626,6 +627,6 @@ def table : List (String × Handler) := [
   ("reduce2", hReduce2), ("reduce2spec", hReduce2Spec), ("idxfn", hIdxFn), ("vcfn", hVcFn), ("mmfn", hMmFn),
   ("opteval", hOptEval), ("optcheck", hOptCheck), ("metaof", hMetaOf),
   ("rewritefilters", hRewriteFilters), ("predcomps", hPredComps),
-  ("dtypeof", hDTypeOf), ("bindtype", hBinDType), ("notdtype", hNotDType)] ++ Dask.RelExpr2IO.handlers
+  ("dtypeof", hDTypeOf), ("bindtype", hBinDType), ("notdtype", hNotDType)] ++ Dask.CoMomentIO.handlers ++ Dask.RelExpr2IO.handlers
 
 def main : IO Unit := runDriver table
